@@ -112,14 +112,18 @@ def nonperiodic_end_split(case, params):
     if o is not None and case.get('op') == 'subdivide' and 'IndexError' in case.get('what', ''):
         # subdivide picks its split points among the distinct domain knots by _splitvector; when that choice
         # contains the last knot of a non-open direction it calls split(end()) -- the same defect
-        for b in o['bases']:
+        nn = case['n']
+        nn = list(nn) if isinstance(nn, (list, tuple)) else [nn] * len(o['bases'])      # one count per direction, or one for all
+        if len(nn) != len(o['bases']):
+            return False
+        for b, n_d in zip(o['bases'], nn):
             k = [Fr(x) for x in b['knots']]
             p = b['order']
             if b['periodic'] >= 0:
                 continue
             dom = sorted(set(x for x in k if k[p - 1] <= x <= k[len(k) - p]))
             nonopen_end = sum(1 for x in k if x == k[len(k) - p]) < p
-            if nonopen_end and (len(dom) - 1) in _splitvector(len(dom), case['n'] + 1)[1:]:
+            if nonopen_end and (len(dom) - 1) in _splitvector(len(dom), int(n_d) + 1)[1:]:
                 return True
         return False
     if o is None or case.get('op') != 'split' or 'IndexError' not in case.get('what', ''):
